@@ -122,8 +122,15 @@ func VerifC07_LineBuffering() {
 	ls1, ls2 := &LogScrubber{Output: one}, &LogScrubber{Output: two}
 	n1, err1 := ls1.Write(b)
 	verifapi.Assert(err1 == nil && n1 == n, "Write accepts the whole buffer")
-	_, e2 := ls2.Write(b[:k])
-	_, e3 := ls2.Write(b[k:])
+	// the second writer is fed from a buffer the caller reuses between its writes (io.Copy does)
+	tmp := make([]byte, n)
+	copy(tmp, b[:k])
+	_, e2 := ls2.Write(tmp[:k])
+	for i := 0; i < k; i++ {
+		tmp[i] = '#'
+	}
+	copy(tmp, b[k:])
+	_, e3 := ls2.Write(tmp[:n-k])
 	verifapi.Assert(e2 == nil && e3 == nil, "split writes succeed")
 	last := -1
 	for i := 0; i < n; i++ {
